@@ -140,7 +140,7 @@ func runC18(x *mc.X) {
 		req.Header.Add("Cache-Control", cc(append([]string{"x-rep", "x-rep=1"}, ds...)...))
 		req.Header.Add("Cache-Control", cc("x-rep", oic))
 	case "after-a-numeral-beyond-int64": // saturates (RFC 9111 §1.2.2); what follows still counts
-		req.Header.Set("Cache-Control", cc(append(append([]string{"x-n=99999999999999999999", `min-fresh="00000000000000000000"`}, ds...), oic)...))
+		req.Header.Set("Cache-Control", cc(append(append([]string{"x-n=99999999999999999999", "max-stale=99999999999999999999", `min-fresh="00000000000000000000"`}, ds...), oic)...))
 	case "after-an-empty-line":
 		req.Header.Add("Cache-Control", "")
 		req.Header.Add("Cache-Control", cc(append(ds, oic)...))
